@@ -40,7 +40,7 @@ class OutOfSubset(Exception):
 #                ('sum', fn) ('ite', prop, a, b) ('cbrt', a) ('sc', name)
 #   props      : ('eq'|'ne'|'lt'|'le'|'gt'|'ge', a, b) ('not', p) ('ixeq', i, j) ('ixle', i, j) ('ex', fn) ('and', p, q) ('or', p, q)
 #   indices    : ('ix', name)
-PROP_TAGS = {'eq', 'ne', 'lt', 'le', 'gt', 'ge', 'not', 'ixeq', 'ixle', 'ex', 'and', 'or'}
+PROP_TAGS = {'eq', 'ne', 'lt', 'le', 'gt', 'ge', 'not', 'ixeq', 'ixle', 'ex', 'and', 'or', 'allconst'}
 
 
 def is_prop(t):
@@ -58,7 +58,12 @@ def pp(t, d=0):
     if k == 'num':
         return '(%s : ℝ)' % t[1]
     if k == 'n':
-        return '(n : ℝ)'
+        return '(%s : ℝ)' % (t[1] if len(t) > 1 else 'n')
+    if k == 'sqrt':
+        return 'sqrt (%s)' % pp(t[1], d)
+    if k == 'allconst':             # np.ptp(v) == 0 : all entries equal
+        a, b = 'a%d' % d, 'b%d' % d
+        return '(∀ %s %s : Fin %s, %s = %s)' % (a, b, t[2], pp(t[1](('ix', a)), d + 1), pp(t[1](('ix', b)), d + 1))
     if k == 'sc':
         return t[1]
     if k == 'ix':
@@ -75,7 +80,7 @@ def pp(t, d=0):
         return 'cbrt (%s)' % pp(t[1], d)
     if k == 'sum':
         v = 'k%d' % d
-        return '(∑ %s : Fin n, %s)' % (v, pp(t[1](('ix', v)), d + 1))
+        return '(∑ %s : Fin %s, %s)' % (v, t[2] if len(t) > 2 else 'n', pp(t[1](('ix', v)), d + 1))
     if k == 'abs':
         return '|%s|' % pp(t[1], d)
     if k == 'aidx':                 # index-valued abstract call, e.g. argmax
@@ -184,8 +189,9 @@ def fresh_oid():
 
 class Val:
     """array / scalar value: shape 'S' f() | 'V' f(i) | 'M' f(i, j); the closures return a scalar term, a prop or an Ext"""
-    def __init__(self, shape, f, oid=None, nat=False):
-        self.shape, self.f, self.oid, self.nat = shape, f, oid or fresh_oid(), nat
+    def __init__(self, shape, f, oid=None, nat=False, dim='n'):
+        # dim: name of the index set Fin <dim> of a vector (matrices are square over Fin n); for a nat scalar: which length it is
+        self.shape, self.f, self.oid, self.nat, self.dim = shape, f, oid or fresh_oid(), nat, dim
 
 
 class Flat:                       # X.flatten() of a matrix (only consumed by np.where / np.size)
@@ -196,6 +202,11 @@ class Flat:                       # X.flatten() of a matrix (only consumed by np
 class WhereFlat:                  # np.where(X.flatten())
     def __init__(self, m):
         self.m = m
+
+
+class WhereVec:                   # np.where(boolean vector)  (only consumed by np.size: number of True entries)
+    def __init__(self, v):
+        self.v = v
 
 
 class Const:                      # python constant known at extraction time (None, bool, str, number, np.inf)
@@ -258,11 +269,13 @@ def ewise2(op, a, b):
     if sa == 'S' and sb == 'S':
         return Val('S', lambda: g(a.f(), b.f()))
     if sa == 'S':
-        return Val(sb, (lambda i: g(a.f(), b.f(i))) if sb == 'V' else (lambda i, j: g(a.f(), b.f(i, j))))
+        return Val(sb, (lambda i: g(a.f(), b.f(i))) if sb == 'V' else (lambda i, j: g(a.f(), b.f(i, j))), dim=b.dim)
     if sb == 'S':
-        return Val(sa, (lambda i: g(a.f(i), b.f())) if sa == 'V' else (lambda i, j: g(a.f(i, j), b.f())))
+        return Val(sa, (lambda i: g(a.f(i), b.f())) if sa == 'V' else (lambda i, j: g(a.f(i, j), b.f())), dim=a.dim)
+    if a.dim != b.dim:
+        raise OutOfSubset('operands of different lengths (%s, %s)' % (a.dim, b.dim))
     if sa == sb == 'V':
-        return Val('V', lambda i: g(a.f(i), b.f(i)))
+        return Val('V', lambda i: g(a.f(i), b.f(i)), dim=a.dim)
     if sa == sb == 'M':
         return Val('M', lambda i, j: g(a.f(i, j), b.f(i, j)))
     if sa == 'M' and sb == 'V':
@@ -277,16 +290,18 @@ def ewise1(fn, a):
     if a.shape == 'S':
         return Val('S', lambda: fn(a.f()))
     if a.shape == 'V':
-        return Val('V', lambda i: fn(a.f(i)))
+        return Val('V', lambda i: fn(a.f(i)), dim=a.dim)
     return Val('M', lambda i, j: fn(a.f(i, j)))
 
 
-def total(f1):
+def total(f1, dim='n'):
     """∑ k, f1 k where entries may be Ext (then: +inf if some guard holds, else the finite sum)"""
     probe = f1(('ix', '_probe'))
     if isinstance(real(probe), Ext):
+        if dim != 'n':
+            raise OutOfSubset('sum of possibly infinite values over Fin %s' % dim)
         return Ext(('ex', lambda k: real(f1(k)).guard), ('sum', lambda k: real(f1(k)).fin))
-    return ('sum', lambda k: fin(f1(k), 'sum'))
+    return ('sum', lambda k: fin(f1(k), 'sum')) if dim == 'n' else ('sum', lambda k: fin(f1(k), 'sum'), dim)
 
 
 def np_sum(x, axis):
@@ -296,7 +311,7 @@ def np_sum(x, axis):
     if x.shape == 'V':
         if axis not in (None, 0):
             raise OutOfSubset('np.sum(vector, axis=%r)' % (axis,))
-        return Val('S', lambda: total(lambda k: x.f(k)))
+        return Val('S', lambda: total(lambda k: x.f(k), x.dim))
     if axis is None:
         return Val('S', lambda: ('sum', lambda a: ('sum', lambda b: fin(x.f(a, b), 'np.sum'))))
     if axis == 0:
@@ -461,6 +476,13 @@ class Extractor:
         for nd in tree.body:
             if isinstance(nd, ast.FunctionDef) and nd.name == name:
                 return src, nd
+        if '.' in name:                                   # 'outer.inner': a def nested in a top-level function
+            outer, inner = name.split('.', 1)
+            for nd in tree.body:
+                if isinstance(nd, ast.FunctionDef) and nd.name == outer:
+                    hits = [x for x in ast.walk(nd) if isinstance(x, ast.FunctionDef) and x.name == inner]
+                    if len(hits) == 1:
+                        return src, hits[0]
         raise OutOfSubset('function %s not found in %s' % (name, rel))
 
     # -- expressions -----------------------------------------------------------------------------------------------
@@ -529,9 +551,39 @@ class Extractor:
             return ewise1(lambda t: ('pow', fin(t, 'power'), k), a)
         raise OutOfSubset('binary operator in %s' % ast.unparse(e))
 
+    def ev_BoolOp(self, e, env):
+        vals = [self.ev(v, env) for v in e.values]
+        if all(isinstance(v, Const) for v in vals):
+            r = vals[0].v
+            for v in vals[1:]:
+                r = (r and v.v) if isinstance(e.op, ast.And) else (r or v.v)
+            return Const(r)
+        ps = []
+        for v in vals:
+            v = as_val(v)
+            if v.shape != 'S':
+                raise OutOfSubset('and/or of arrays')
+            ps.append(v)
+        tag = 'and' if isinstance(e.op, ast.And) else 'or'
+
+        def build():
+            ts = [truth(p.f()) for p in ps]
+            r = ts[-1]
+            for t in reversed(ts[:-1]):
+                r = (tag, t, r)
+            return r
+        return Val('S', build)
+
     def ev_Compare(self, e, env):
         if len(e.ops) != 1:
             raise OutOfSubset('chained comparison %s' % ast.unparse(e))
+        c0 = e.comparators[0]
+        if isinstance(e.ops[0], ast.Eq) and isinstance(e.left, ast.Call) and dotted(e.left.func) == 'np.ptp' and len(e.left.args) == 1 \
+                and not e.left.keywords and isinstance(c0, ast.Constant) and c0.value == 0 and not isinstance(c0.value, bool):
+            v = as_val(self.ev(e.left.args[0], env))          # idiom np.ptp(v) == 0  (max − min = 0): all entries are equal
+            if v.shape != 'V':
+                raise OutOfSubset('np.ptp of a non-vector')
+            return Val('S', lambda: ('allconst', lambda k: fin(v.f(k), 'np.ptp'), v.dim))
         a, b = self.ev(e.left, env), self.ev(e.comparators[0], env)
         op = type(e.ops[0]).__name__
         if op in ('Is', 'IsNot'):
@@ -552,6 +604,10 @@ class Extractor:
         x = self.ev(e.value, env)
         sl = e.slice
         full = lambda s: isinstance(s, ast.Slice) and s.lower is None and s.upper is None and s.step is None
+        if isinstance(x, Val) and x.shape == 'V' and not isinstance(sl, (ast.Slice, ast.Tuple)):
+            ix = self.ev(sl, env)
+            if isinstance(ix, Val) and ix.shape == 'I' and ix.dim == x.dim:
+                return Val('S', lambda: x.f(ix.f()))
         if isinstance(x, Val) and x.shape == 'M' and isinstance(sl, ast.Tuple) and len(sl.elts) == 2:
             a, b = sl.elts
             if full(a) and not isinstance(b, ast.Slice):
@@ -628,6 +684,26 @@ class Extractor:
             if isinstance(x, Val) and x.nat:
                 return Val('M', lambda i, j: ('ite', ('ixeq', i, j), ONE, ZERO))
             raise OutOfSubset('np.eye of something other than n')
+        if fn == 'np.sqrt' and len(args) == 1 and not e.keywords:
+            return ewise1(lambda t: ('sqrt', fin(t, 'np.sqrt')), self.ev(args[0], env))       # abstract sqrt : ℝ → ℝ
+        if fn in ('np.mean', 'np.var') and len(args) == 1:
+            x = as_val(self.ev(args[0], env))
+            if x.shape != 'V':
+                raise OutOfSubset('%s of a non-vector' % fn)
+            ln = ('n',) if x.dim == 'n' else ('n', x.dim)
+            dim = x.dim
+            sm = lambda f1: ('sum', f1) if dim == 'n' else ('sum', f1, dim)
+            mean = lambda: ('div', sm(lambda k: fin(x.f(k), fn)), ln)
+            if fn == 'np.mean':
+                if e.keywords:
+                    raise OutOfSubset('keywords of np.mean')
+                return Val('S', mean)
+            kws = self.kw(e, env, {'ddof'})
+            ddof = self.ev(kws['ddof'], env) if 'ddof' in kws else Const(0)
+            if not (isinstance(ddof, Const) and isinstance(ddof.v, int) and not isinstance(ddof.v, bool) and ddof.v >= 0):
+                raise OutOfSubset('ddof of np.var')
+            den = ln if ddof.v == 0 else ('sub', ln, ('num', str(ddof.v)))
+            return Val('S', lambda: ('div', sm(lambda k: ('pow', ('sub', fin(x.f(k), fn), mean()), 2)), den))
         if fn == 'np.abs' and len(args) == 1 and not e.keywords:
             return ewise1(lambda t: ('abs', fin(t, 'np.abs')), self.ev(args[0], env))
         if fn == 'np.real' and len(args) == 1 and not e.keywords:
@@ -660,9 +736,14 @@ class Extractor:
             x = self.ev(args[0], env)
             if isinstance(x, Flat):
                 return WhereFlat(x.m)
+            if isinstance(x, Val) and x.shape == 'V' and is_prop(x.f(('ix', '_p'))):
+                return WhereVec(x)
             raise OutOfSubset('np.where outside the idioms X[np.where(mask)] = v / np.size(np.where(X.flatten()))')
         if fn == 'np.size' and len(args) == 1 and not e.keywords:
             x = self.ev(args[0], env)
+            if isinstance(x, WhereVec):
+                v = x.v
+                return Val('S', lambda: ('sum', lambda a: ('ite', v.f(a), ONE, ZERO), v.dim) if v.dim != 'n' else ('sum', lambda a: ('ite', v.f(a), ONE, ZERO)))
             if isinstance(x, WhereFlat):
                 m = x.m
                 return Val('S', lambda: ('sum', lambda a: ('sum', lambda b: ('ite', truth(m.f(a, b)), ONE, ZERO))))
@@ -678,7 +759,7 @@ class Extractor:
         if fn == 'len' and len(args) == 1 and not e.keywords:
             x = self.ev(args[0], env)
             if isinstance(x, Val) and x.shape in ('M', 'V'):
-                return S(('n',), nat=True)
+                return Val('S', (lambda: ('n',)) if x.dim == 'n' else (lambda d=x.dim: ('n', d)), nat=True, dim=x.dim)
             raise OutOfSubset('len of a non-array')
         if fn in ('float', 'int') and len(args) == 1 and not e.keywords:
             x = self.ev(args[0], env)
@@ -716,7 +797,7 @@ class Extractor:
             g = {'S': lambda: to_float(f()), 'V': lambda i: to_float(f(i)), 'M': lambda i, j: to_float(f(i, j))}[x.shape]
         else:
             g = f
-        return Val(x.shape, g, nat=x.nat and not tofloat)
+        return Val(x.shape, g, nat=x.nat and not tofloat, dim=x.dim)
 
     def check_cuberoot(self):
         src, nd = self.fundef('bct/utils/miscellaneous_utilities.py', 'cuberoot')
@@ -771,7 +852,7 @@ _MT, _VT = '(Fin n → Fin n → ℝ)', '(Fin n → ℝ)'
 ABSTRACT_TYPES = [          # order of the abstract-function parameters of a generated definition
     ('cbrt', 'ℝ → ℝ'), ('canon', '%s → Fin n → ℝ' % _VT), ('solve', '%s → %s → Fin n → ℝ' % (_MT, _VT)),
     ('expm', '%s → Fin n → Fin n → ℝ' % _MT), ('mfpt', '%s → Fin n → Fin n → ℝ' % _MT),
-    ('eigvals', '%s → Fin n → ℝ' % _MT), ('eigvecs', '%s → Fin n → Fin n → ℝ' % _MT), ('argmax', '%s → Fin n' % _VT)]
+    ('eigvals', '%s → Fin n → ℝ' % _MT), ('eigvecs', '%s → Fin n → Fin n → ℝ' % _MT), ('argmax', '%s → Fin n' % _VT), ('sqrt', 'ℝ → ℝ')]
 
 
 def abstract_used(text):
@@ -813,9 +894,13 @@ class Body:
                 self.env[k] = Poison('view of an array that is modified in place')
 
     def run(self, stmts):
-        for st in stmts:
+        for pos, st in enumerate(stmts):
             if self.done:
-                raise OutOfSubset('statement after return')
+                self.report['dropped'].append('%d statement(s) after the return taken on this path (unreachable)' % (len(stmts) - pos))
+                break
+            if isinstance(st, ast.If) and not st.orelse and len(st.body) == 1 and isinstance(st.body[0], ast.Return) \
+                    and st.body[0].value is not None and self.early_return(st, stmts[pos + 1:]):
+                break
             self.stmt(st)
             for nm, kind in self.opaque.items():
                 if isinstance(self.env.get(nm), Poison):
@@ -826,6 +911,30 @@ class Body:
                     self.opaque_used.append(nm)
                     self.report['dropped'].append('OPAQUE %s: not extracted (%s); free %s parameter of the definition' % (nm, why[:90], kind))
         return self.ret
+
+    def early_return(self, st, rest):
+        """`if c: return v` with a data-dependent scalar c, followed by the rest of the block:  result = if c then v else <rest>"""
+        try:
+            t = self.ex.ev(st.test, self.env)
+        except OutOfSubset:
+            return False
+        if isinstance(t, Const) or not (isinstance(t, Val) and t.shape == 'S'):
+            return False
+        c = truth(t.f())
+        a = as_val(self.ex.ev(st.body[0].value, self.env))
+        sub = Body(self.ex, self.name, dict(self.env), {'taken': [], 'dropped': [], 'poisoned': []}, self.opaque)
+        b = sub.run(rest)
+        if b is None or sub.mutated:
+            raise OutOfSubset('no value / in-place store after an early return')
+        b = as_val(b)
+        if a.shape != 'S' or b.shape != 'S':
+            raise OutOfSubset('early return of a non-scalar under a data-dependent condition')
+        self.note('taken', st, 'early return, if-converted')
+        for k in ('taken', 'poisoned', 'dropped'):
+            self.report[k] += sub.report[k]
+        self.ret = Val('S', lambda: ('ite', c, fin(a.f(), 'early return'), fin(b.f(), 'return')))
+        self.done = True
+        return True
 
     def stmt(self, st):
         env, ex = self.env, self.ex
@@ -1031,6 +1140,15 @@ TARGETS += [
     (CEN, 'subgraph_centrality', {'CIJ': 'mat'}),
     (CEN, 'eigenvector_centrality_und', {'CIJ': 'mat'}),
 ]
+# C15 (callee contracts assumed by the pyvc tier): binarize itself (degrees_*, strengths_* are already targets)
+TARGETS.append(('bct/utils/other.py', 'binarize', {'W': 'mat', 'copy': ('const', True)}))
+# C19: the two t-statistic closures of nbs_bct, one definition per tail; groups of sizes n1, n2 / n pairs
+NBS = 'bct/nbs.py'
+for _t in ('both', 'left', 'right'):
+    TARGETS.append((NBS, 'nbs_bct.ttest2_stat_only', {'x': ('vec', 'n1'), 'y': ('vec', 'n2'), 'tail': ('const', _t)}, None, '_' + _t))
+    TARGETS.append((NBS, 'nbs_bct.ttest_paired_stat_only', {'A': ('vec', 'n'), 'B': ('vec', 'n'), 'tail': ('const', _t)}, None, '_' + _t))
+# the p-value statement of nbs_bct as a fragment: null has k entries (np.zeros((k,)) in the code), i indexes the components
+TARGETS.append((NBS, 'nbs_bct#pvals[i]', {'null': ('vec', 'k'), 'sz_links': ('vec', 'c'), 'i': ('idx', 'c'), 'k': ('nat', 'k')}))
 # modularity_und_sign, one definition per documented qtype (the string parameter is fixed, the if/elif chain is decided statically).
 # Kn0 / Kn1 are accumulated by a loop over modules (outside the subset): declared opaque = free vector parameters
 for _q in ('sta', 'smp', 'gja', 'pos', 'neg'):
@@ -1041,20 +1159,47 @@ LEAN_TYPES = {'M': 'Fin n → Fin n → ℝ', 'V': 'Fin n → ℝ', 'S': 'ℝ'}
 
 def extract_function(ex, rel, name, kinds, opaque=None, suffix=''):
     """returns (list of (lean_name, lean_text), report)"""
+    frag = None
+    if '#' in name:                                   # 'function#target-text': one assignment inside the function (fragment)
+        name, frag = name.split('#', 1)
     src, nd = ex.fundef(rel, name)
+    pyname = name.split('.')[0]                       # the public bct function (for 'outer.inner' the outer one)
+    name = name.split('.')[-1]
+    if frag is not None:
+        name = '%s_%s' % (name, ''.join(ch if ch.isalnum() else '_' for ch in frag).strip('_'))
     seg = ast.get_source_segment(src, nd) or ''
-    report = {'function': name, 'target': name + suffix, 'file': rel, 'sha1': hashlib.sha1(seg.encode()).hexdigest()[:12], 'taken': [], 'dropped': [], 'poisoned': [],
+    report = {'function': pyname, 'target': name + suffix, 'file': rel, 'sha1': hashlib.sha1(seg.encode()).hexdigest()[:12], 'taken': [], 'dropped': [], 'poisoned': [],
               'decorators': [ast.unparse(d)[:60] for d in nd.decorator_list], 'defs': []}
     if nd.decorator_list:
         report['dropped'].append('decorators (transparent): ' + '; '.join(report['decorators']))
     params = [a.arg for a in nd.args.args]
     if nd.args.vararg or nd.args.kwarg or nd.args.kwonlyargs:
         raise OutOfSubset('signature')
-    if set(params) != set(kinds):
+    if frag is not None:
+        params = list(kinds)                          # free names of the fragment, kinds declared in TARGETS
+        report['dropped'].append('FRAGMENT: only the statement `%s = ...` of %s is extracted; the names %s are free parameters (nothing is '
+                                 'claimed about how the surrounding code computes them)' % (frag, pyname, ', '.join(params)))
+    elif set(params) != set(kinds):
         raise OutOfSubset('signature changed: parameters %s, expected %s' % (params, sorted(kinds)))
     env, lean_params, named = {}, [], []
+    dims = []
     for p in params:
         k = kinds[p]
+        if isinstance(k, tuple) and k[0] in ('vec', 'idx', 'nat'):
+            dm = k[1]
+            if dm not in dims:
+                dims.append(dm)
+            if k[0] == 'vec':
+                env[p] = Val('V', (lambda p: lambda i: ('app', p, [i]))(p), dim=dm)
+                lean_params.append('(%s : Fin %s → ℝ)' % (p, dm)); named.append(p)
+            elif k[0] == 'idx':
+                env[p] = Val('I', (lambda p: lambda: ('ix', p))(p), dim=dm)
+                lean_params.append('(%s : Fin %s)' % (p, dm)); named.append(p)
+            else:
+                env[p] = Val('S', (lambda dm: lambda: ('n', dm))(dm), nat=True, dim=dm)
+            continue
+        if k in ('mat', 'vec') and 'n' not in dims:
+            dims.append('n')
         if k == 'mat':
             env[p] = Val('M', (lambda p: lambda i, j: ('app', p, [i, j]))(p))
             lean_params.append('(%s : Fin n → Fin n → ℝ)' % p); named.append(p)
@@ -1069,7 +1214,14 @@ def extract_function(ex, rel, name, kinds, opaque=None, suffix=''):
             report['dropped'].append('parameter %s fixed to the constant %r' % (p, k[1]))
     ex.ctx = {'name': name + suffix, 'params': list(zip(lean_params, named)), 'aux': [], 'ncall': 0, 'abstract_calls': []}
     body = Body(ex, name, env, report, opaque)
-    ret = body.run(nd.body)
+    if frag is not None:
+        hits = [x for x in ast.walk(nd) if isinstance(x, ast.Assign) and len(x.targets) == 1 and ast.unparse(x.targets[0]) == frag]
+        if len(hits) != 1:
+            raise OutOfSubset('fragment `%s = ...` occurs %d times in %s' % (frag, len(hits), pyname))
+        ret = ex.ev(hits[0].value, env)
+        body.note('taken', hits[0])
+    else:
+        ret = body.run(nd.body)
     if ret is None:
         raise OutOfSubset('no return value on the extracted path')
     comps = ret.items if isinstance(ret, PyTuple) else [ret]
@@ -1088,7 +1240,8 @@ def extract_function(ex, rel, name, kinds, opaque=None, suffix=''):
             text, binder = pp(t), 'fun i j => '
         ps = list(lean_params) + ['(%s : %s)' % (nm, 'Fin n → ℝ' if (opaque or {})[nm] == 'vec' else 'ℝ') for nm in body.opaque_used]
         ps = ['(%s : %s)' % p for p in abstract_used(text)] + ps
-        lean = 'noncomputable def %s {n : ℕ} %s : %s :=\n  %s%s\n' % (lname, ' '.join(ps), LEAN_TYPES[v.shape], binder, text)
+        rtype = LEAN_TYPES[v.shape] if v.shape != 'V' else 'Fin %s → ℝ' % v.dim
+        lean = 'noncomputable def %s {%s : ℕ} %s : %s :=\n  %s%s\n' % (lname, ' '.join(dims or ['n']), ' '.join(ps), rtype, binder, text)
         defs.append((lname, lean))
         report['defs'].append({'name': lname, 'shape': v.shape, 'params': ps, 'chars': len(text)})
     # argument definitions of abstract calls: keep those that the returned value (transitively) mentions
@@ -1150,10 +1303,10 @@ def extract_all(repo=None, only=None):
             for _, text in defs:
                 out.append(text)
         except OutOfSubset as e:
-            rep = {'function': name, 'target': name + (tgt[4] if len(tgt) > 4 else ''), 'file': rel, 'status': 'refused', 'reason': str(e), 'defs': []}
+            rep = {'function': name.split('#')[0].split('.')[0], 'target': name + (tgt[4] if len(tgt) > 4 else ''), 'file': rel, 'status': 'refused', 'reason': str(e), 'defs': []}
             out.append('/- %s.%s  REFUSED (out of the subset): %s -/\n' % (rel, name, str(e).replace('-/', '- /')))
         except (OSError, SyntaxError) as e:
-            rep = {'function': name, 'target': name + (tgt[4] if len(tgt) > 4 else ''), 'file': rel, 'status': 'refused', 'reason': 'cannot read/parse: %r' % (e,), 'defs': []}
+            rep = {'function': name.split('#')[0].split('.')[0], 'target': name + (tgt[4] if len(tgt) > 4 else ''), 'file': rel, 'status': 'refused', 'reason': 'cannot read/parse: %r' % (e,), 'defs': []}
             out.append('/- %s.%s  REFUSED: %r -/\n' % (rel, name, e))
         reports.append(rep)
     text = HEADER % {'repo': ex.repo} + '\n' + '\n'.join(out) + '\nend Extracted\n'
